@@ -494,10 +494,77 @@ func TestVerifC15Parser(t *testing.T) {
 			rep.Class("accepted:empty")
 		}
 	}
+	c15pControlBytes(rep)
 	if rep.EventCount("fixed_point_confirmed") < n/10 && !rep.Violated() {
 		rep.Inconcl(fmt.Sprintf("only %d of %d texts were accepted and re-parsed", rep.EventCount("fixed_point_confirmed"), n))
 	}
 	if rep.EventCount("rejected") == 0 {
 		rep.Inconcl("no text was rejected")
+	}
+}
+
+// c15pControlBytes feeds, for every control byte 0x00-0x1f and 0x7f, otherwise
+// valid texts that contain the byte exactly once: inside a rule line, as its
+// first byte, as its last byte; in the first, a middle and the last line; with
+// and without a title line in front.  Reference for "binary content": any
+// control character other than tab, LF, CR.  Tab, LF and CR are the positive
+// controls (the text must be accepted); VT and FF as first or last byte of a
+// line are white space to a trimming reader and binary to this reference, so
+// either outcome is accepted there and counted.
+func c15pControlBytes(rep *verifkit.Report) {
+	rules := []string{"||one.example.org^", "0.0.0.0 two.example.net", "||three.example.org^$important", "four.example.com", "@@||five.example.org^"}
+	bytesToTry := []byte{0x7f}
+	for c := 0; c < 0x20; c++ {
+		bytesToTry = append(bytesToTry, byte(c))
+	}
+	for _, c := range bytesToTry {
+		for _, pos := range []string{"inside", "start", "end"} {
+			for li, where := range []string{"first-line", "middle-line", "last-line"} {
+				for _, titled := range []bool{false, true} {
+					for _, finalEOL := range []bool{true, false} {
+						lines := append([]string{}, rules...)
+						idx := []int{0, 2, len(lines) - 1}[li]
+						l := lines[idx]
+						switch pos {
+						case "inside":
+							l = l[:5] + string([]byte{c}) + l[5:]
+						case "start":
+							l = string([]byte{c}) + l
+						default:
+							l += string([]byte{c})
+						}
+						lines[idx] = l
+						text := strings.Join(lines, "\n")
+						if finalEOL {
+							text += "\n"
+						}
+						if titled {
+							text = "! Title: control bytes\n# a comment\n" + text
+						}
+						out, res, err, pn := c15pParse([]byte(text), DefaultRuleBufSize)
+						rep.Eval(true, text)
+						name := fmt.Sprintf("0x%02x", c)
+						wit := map[string]any{"text": c15pShow([]byte(text)), "byte": name, "position": pos, "line": where,
+							"output": c15pShow(out), "error": fmt.Sprint(err)}
+						switch {
+						case pn != nil || res == nil:
+							rep.Violate("parser:panic", fmt.Sprintf("Parse panicked or returned nil: %v", pn), wit)
+						case c == '\t' || c == '\n' || c == '\r':
+							rep.Class("control-byte:positive-control-" + map[byte]string{'\t': "tab", '\n': "LF", '\r': "CR"}[c])
+							if err != nil {
+								rep.Violate("parser:valid-text-rejected:"+name+"-"+pos, "a text whose only special byte is a tab, LF or CR was rejected: "+err.Error(), wit)
+							}
+						case (c == 0x0b || c == 0x0c) && pos != "inside":
+							rep.Unspec("VT-or-FF-as-first-or-last-byte-of-a-line")
+						case err == nil:
+							rep.Violate("parser:binary-accepted:control-byte-"+name+"-"+pos,
+								fmt.Sprintf("a text with the control character %s (%s of a rule line, %s) was accepted as a rule list with %d rules", name, pos, where, res.RulesCount), wit)
+						default:
+							rep.Class("control-byte:rejected-as-binary")
+						}
+					}
+				}
+			}
+		}
 	}
 }
